@@ -8,7 +8,7 @@ ENV = "GOFLAGS=-mod=mod GOPROXY=off GOSUMDB=off GOTOOLCHAIN=local GOWORK=off"
 
 # id -> (technique, level text, level note, design ref)
 CLAIMED = {
-    "C12": ("lockset + guard-dominance + must-pass-through + def-use over go/ssa (custom checker) + baton-passing after cond.Wait + clamp bound followed into helpers (every return bounded by the limit parameter)",
+    "C12": ("lockset + guard-dominance + must-pass-through + def-use over go/ssa (custom checker) + baton-passing after cond.Wait + clamp bound followed into helpers (every return bounded by the limit parameter) + reachability of the running-set insertion under an assumed job state (caller/callee agreement on re-attach)",
             "Structural necessary conditions decided exhaustively over the current source: lock discipline of the semaphore fields, "
             "capacity test dominates every grant in the same critical section, acquire/release pairing on all paths, clamp before acquire, "
             "wake-up after every release/resize, FIFO head-of-line, single acquisition order. All interleavings are covered at once because the rules "
@@ -23,12 +23,12 @@ CLAIMED.update({
             "phase guards in stepStage, the all-chunks-complete flag, the waiting rule of Node.getState, dependency sources (inputs, disabled condition, return bindings, fork roots) flowing into the prenode/postnode sets, preflight prenodes incl. recursion into sub-pipelines.",
             "Not decided: that FindRefs returns every reference (value-level recursion), state derivation from real files, job manager internals. Trusts go/ssa and the VTA call graph.",
             "DESIGN.md §4 C02"),
-    "C03": ("guard dominance + must-pass-through + who-may-call over go/ssa; disjunctive at-most-once rule + may-alias fix-point over package syntax (shared Disable list never extended in place)",
+    "C03": ("guard dominance + must-pass-through + who-may-call over go/ssa; disjunctive at-most-once rule + may-alias fix-point over package syntax (shared Disable list never extended in place) + copy-on-write discipline of shared fork-id parts (pointer provenance: caller's part joined with a private copy, guard compares len(node.forks) with Fork.index, followed into helpers)",
             "Structural necessary conditions: at-most-once submission (flag test-and-set OR synchronous _jobinfo record before execJob), disabled test before any submission/completion, "
             "empty/null mapped collections reach writeDisable, zero-length range reports disabled, skip() only for preflights under SkipPreflight.",
             "Not decided: one fork per element/key (run-time counts), liveness (no job skipped). The at-most-once rule is a disjunction on purpose: removing one of the two redundant mechanisms keeps behaviour and must not alarm.",
             "DESIGN.md §4 C03"),
-    "C06": ("guard dominance + must-pass-through + phi-web analysis + who-may-call over go/ssa (core, cmd/mrjob, cmd/mrp) + all-elements verdict followed through boolean-returning helpers (path-sensitive product search per helper, call sites as sites one level up)",
+    "C06": ("guard dominance + must-pass-through + phi-web analysis + who-may-call over go/ssa (core, cmd/mrjob, cmd/mrp) + all-elements verdict followed through boolean-returning helpers (path-sensitive product search per helper, call sites as sites one level up) + verdict consistency (false after a recorded failure) + cache-invalidation pairing (must-pass-through) + coverage of failure-marker locations by the partial reset",
             "Structural necessary conditions: failure markers take precedence in the state function; the monitor writes _complete only on success and always records a failure; the local job manager reports failed processes; "
             "every fork-level _complete is dominated by output validation; join only after all chunk outputs were read and verified; failed nodes release nobody; success exit status only from the completed-cleanup path.",
             "Not decided: error text naming the stage, retry classification regexes, the Python adapter, restart behaviour after the fault is removed.",
@@ -36,12 +36,12 @@ CLAIMED.update({
 })
 
 CLAIMED.update({
-    "C15": ("relation operand symmetry + field coverage (taint classes over go/ssa) + guard dominance on reattachToPipestance and Pipestance.Lock + all-elements-compared search + handler registration only for the lock owner + type name compared unless plain file (guard dominance on the accepting return)",
+    "C15": ("relation operand symmetry + field coverage (taint classes over go/ssa) + guard dominance on reattachToPipestance and Pipestance.Lock + all-elements-compared search + handler registration only for the lock owner + type name compared unless plain file (guard dominance on the accepting return) + reachability of struct-definition reads from EquivalentCall (interface calls expanded)",
             "Structural necessary conditions: every comparison / nested relation call in the equivalence relations pairs a receiver-derived value with the same component of the argument (found the genuine self-comparison in Modifiers.EquivalentTo, now fixed); "
             "each semantic field is read on both sides; attachment is dominated by byte equality with the recorded file and by EquivalentCall; refusals unlock; the lock is written only when absent, after the handler is registered; mutating entry points are guarded by readOnly().",
             "Not decided: completeness (cosmetic edits are accepted), races between two simultaneous first starts, that the byte comparison of the invocation text refuses a merely reformatted invocation (observation only).",
             "DESIGN.md §4 C15"),
-    "C18": ("table agreement (escape set extracted from SSA comparisons vs POSIX special set) + provenance with sanitizer + template scan + guard exclusion sets for verbatim copies + single-pass substitution (value derivation) through helper parameters and results + byte-wise predicate helpers folded per byte value",
+    "C18": ("table agreement (escape set extracted from SSA comparisons vs POSIX special set) + provenance with sanitizer + template scan + guard exclusion sets for verbatim copies + single-pass substitution (value derivation) through helper parameters and results + byte-wise predicate helpers folded per byte value + no search of substituted text with placeholder needles (derivation through Split/Join/elements)",
             "Structural necessary conditions: the escape set of appendShellSafeQuote covers $ ` \" \\ (found the genuine missing back-tick, now fixed), values are wrapped in double quotes, every argv element / command / environment value reaches the script only through the quoting function, "
             "STDOUT/STDERR/JOB_WORKDIR/CMD parameters are quoted results, __MRO_CMD__ stands unquoted in command position in all templates.",
             "Not decided: invalid UTF-8 (octal extension), JOB_NAME/RESOURCES, directive parsers of each cluster. Oracle: POSIX XCU 2.2.3.",
@@ -49,7 +49,7 @@ CLAIMED.update({
 })
 
 CLAIMED.update({
-    "C04": ("deletion-site ownership table + who-may-call + guard dominance + backward string provenance + lockset (Fork.storageLock) over go/ssa + must-pass-through (alias completeness) + empty-path guard",
+    "C04": ("deletion-site ownership table + who-may-call + guard dominance + backward string provenance + lockset (Fork.storageLock) over go/ssa + must-pass-through (alias completeness) + empty-path guard + sibling agreement of the type-less projection (recursion inside a range-over-map loop as inside the array loop) + provenance of the walked file's names (getLogicalFileNames on all paths)",
             "Structural necessary conditions decided for all interleavings at once: every os.Remove/RemoveAll of package core sits in a tabled function; files-path deleters are reachable only through partialVdrKill; a full kill needs Disabled or Complete with no waiting file post-node; "
             "consumers leave the waiting set only when seen Complete/Disabled and never the nil consumer; only files with a nil keep-alive set reach os.RemoveAll; chunk files only under Split(); top-level outputs and retains carry the nil consumer; cloned forks inherit the bookkeeping; the three maps are touched only under storageLock (constructor-phase exceptions tabled).",
             "Not decided: whether getLogicalFileNames/anyOverlap find every alias (file-system values); stages passing upstream paths through (excluded by the property).",
@@ -61,7 +61,7 @@ CLAIMED.update({
 })
 
 CLAIMED.update({
-    "C05": ("must-pass-through ordering + guard dominance + who-may-call + interface-implementation enumeration over go/ssa (core, util, cmd/mrjob, cmd/mrp) + must-do (state re-derived after reset) + condition-implies-action (after an edge on which the restart condition holds every path to the entry point's return resets; verdict-returning helpers followed with the returned constants assumed)",
+    "C05": ("must-pass-through ordering + guard dominance + who-may-call + interface-implementation enumeration over go/ssa (core, util, cmd/mrjob, cmd/mrp) + must-do (state re-derived after reset) + condition-implies-action (after an edge on which the restart condition holds every path to the entry point's return resets; verdict-returning helpers followed with the returned constants assumed) + condition-implies-action search with known facts (dominator-chain relations, loads of one access path) and with an assumed state value (contradicting edges pruned) + data dependence of the regenerated uniquifier on the previous one",
             "Crash-point enumeration is not static; decided instead are the ordering and ownership rules that make a crash at any point recoverable: durable-before-announced in the job monitor and in runJob, reset only of failed/orphaned work (never Complete), fresh uniquifier per attempt and stale notifications ignored, "
             "lock life-cycle and signal shutdown order, balanced critical sections that no HandleSignal enters and that enclose the multi-file updates.",
             "Not decided: equality of final outputs with an uninterrupted run, behaviour at each individual crash prefix, PID reuse. A lock leak on a non-signal error path of instantiatePipeline is outside the property's wording (handled signals) and reported as information in DESIGN.md.",
@@ -77,14 +77,14 @@ CLAIMED.update({
 })
 
 CLAIMED.update({
-    "C09": ("table agreement between parse side (fields fed by unquote, computed by taint over the generated grammar actions) and format side (provenance with quoteString as sanitizer); escape-set extraction from quoteString vs the lexer's string regexp constant; must-pass-through field examination (every path of a node's format method reads each content field of a frozen table, predicate helpers expanded)",
+    "C09": ("table agreement between parse side (fields fed by unquote, computed by taint over the generated grammar actions) and format side (provenance with quoteString as sanitizer); escape-set extraction from quoteString vs the lexer's string regexp constant; must-pass-through field examination (every path of a node's format method reads each content field of a frozen table, predicate helpers expanded) + loop-exit rule on the wildcard while the compiler extends the binding list (premise re-established)",
             "Structural necessary conditions: every AST string the parser obtains with unquote reaches formatted text only through quoteString (found raw emission of stage src and include paths, fixed); quoteString copies unescaped only bytes >= 0x20 other than quote/backslash; every escape it writes is lexed by the string rule and decoded by unquoteBytes.",
             "Not decided: idempotence, comment placement, number printing (%g, formatGB), topological order, include-expanded rendering.",
             "DESIGN.md §4 C09"),
 })
 
 CLAIMED.update({
-    "C10": ("iteration-order analysis of every range-over-map loop reachable from the deterministic entry points (SSA loop bodies, effect classification, collect-then-sort recognition, call-effect fix-point over the VTA call graph) + self-validating triage table + positive examples + sibling agreement of key-order comparators",
+    "C10": ("iteration-order analysis of every range-over-map loop reachable from the deterministic entry points (SSA loop bodies, effect classification, collect-then-sort recognition, call-effect fix-point over the VTA call graph) + self-validating triage table + positive examples + sibling agreement of key-order comparators + completeness of location comparisons in comparators of map-collected keys (closures and Less methods, accessors looked through)",
             "A structural necessary condition: Go's randomised map iteration is the only nondeterminism source in compile/format/resolve code (checked: no goroutine/clock/random there), so every map loop must have only order-insensitive effects, be collect-then-sort, or be triaged with a reason that the checker re-validates. "
             "Found 34 loops where map order reached error text, comment output or filtered JSON (18 distinct error texts in 60 compiles); fixed by sorted iteration.",
             "Not decided: order dependence through pointer identity, sort comparators that are not total orders, stability of topoSort. The 15 triage entries are the trusted part (each with a reason; 7 carry a machine-checked condition).",
@@ -92,7 +92,7 @@ CLAIMED.update({
 })
 
 CLAIMED.update({
-    "C11": ("table agreement between writer and parser constants (replacer pairs, regexp literal, Sprintf formats extracted from SSA; sample names assembled from the writer's constants are parsed by the reader's regexp) + provenance of map keys + guard dominance in the journal router + guard exclusion sets for verbatim key output (constant-needle searches; byte-wise predicates folded per byte value over the SSA of the loop body)",
+    "C11": ("table agreement between writer and parser constants (replacer pairs, regexp literal, Sprintf formats extracted from SSA; sample names assembled from the writer's constants are parsed by the reader's regexp) + provenance of map keys + guard dominance in the journal router + guard exclusion sets for verbatim key output (constant-needle searches; byte-wise predicates folded per byte value over the SSA of the loop body) + identity check of positional fork lookup (guard dominance on the returned element's own name) + adversarial name samples (call ids beginning with fork/chnk)",
             "Structural necessary conditions: the journal-name encoder and the journal regexp agree, the uniquifier/chunk formats are what the regexp accepts, map keys reach id text only through url.PathEscape, Fork.fqname/path/id come only from the encoded id, stale attempts are ignored, a notification is applied only to the object the router resolved, fork lookup is bounds-checked and compares whole names.",
             "Not decided: injectivity of nested mixed array/map fork numbering (arithmetic on run-time lengths), collisions between -u<uniq> directories, that forks[i] carries id fork<i>.",
             "DESIGN.md §4 C11"),
@@ -103,7 +103,7 @@ CLAIMED.update({
             "Structural necessary conditions: every IsValidJson / FilterJson implementation accepts null first and without effect; every IsAssignableFrom / CheckEqual pairs the same component of receiver and argument; JSON rebuilders keep the identity fast path and raise the 'different' flag whenever a component changed.",
             "Partial: idempotence, validity of the rebuilt JSON and int/float normalisation are value-level and not decided.",
             "DESIGN.md §4 C17"),
-    "C07": ("operand symmetry over the assignability/equality relations + sibling agreement of the reference arm of every IsValidExpression implementation (guard dominance over go/ssa) (thin claim) + guard dominance with invalidation (map wrap, merge HasRef) + guard dominance in the function or at all calls (map unwrap only without array dimension)",
+    "C07": ("operand symmetry over the assignability/equality relations + sibling agreement of the reference arm of every IsValidExpression implementation (guard dominance over go/ssa) (thin claim) + guard dominance with invalidation (map wrap, merge HasRef) + guard dominance in the function or at all calls (map unwrap only without array dimension) + phase-order typestate (no read of BindStms.Table reachable from the topological sort; premise re-established)",
             "Two mechanisms, not the property's behaviour: assignability recurses on the right operands; a reference is accepted only after resolveType succeeded and the referenced type is assignable TO the receiver type, in every implementation of the interface.",
             "Thin: soundness of the whole relation, projection, map-call dimensions and error locations are not decided.",
             "DESIGN.md §4 C07"),
